@@ -265,9 +265,14 @@ def build(cls, u, k, cs=None, **kw):
     raise KeyError(cls)
 
 
+SU2_REL_TOL = 1e-9      # cmath.isclose(det, 1.0): |det - 1| <= 1e-9 * max(|det|, 1)
+
+
 def is_su2(u):
-    from qclib.gates.util import check_su2
-    return bool(check_su2(u))
+    """The dispatch test of Mcg (`check_su2`), computed independently of qclib so that the tie and the reference notice
+    a moved threshold.  Generated determinants keep |det - 1| outside (3.3e-10, 3e-9)."""
+    d = complex(np.linalg.det(np.asarray(u, dtype=complex)))
+    return abs(d - 1.0) <= SU2_REL_TOL * max(abs(d), 1.0)
 
 
 def tie_u(nprng):
@@ -426,19 +431,43 @@ def eval_exact(task):
     from qiskit.quantum_info import Operator
     cls, uname, u, k, cs, kw = task
     u = np.asarray(u, dtype=complex)
-    try:
-        with warnings.catch_warnings():
-            warnings.simplefilter("ignore")
-            circ = build(cls, u, k, cs, **kw)
-            op = Operator(circ).data
-    except Exception as e:  # construction must never fail on a valid input
-        return {"exc": f"{type(e).__name__}: {str(e)[:200]}"}
     ref_u = u
     if cls == "mcg" and kw.get("utd") and k >= 2 and not is_su2(u):
         # up_to_diagonal: the exact-operator claim does not apply; the construction must be the controlled
         # U / det(U)^(1/2) (principal root), i.e. controlled-U up to the dropped phase
         ref_u = u * np.exp(-0.5j * np.angle(np.linalg.det(u)))
+    try:
+        with warnings.catch_warnings():
+            warnings.simplefilter("ignore")
+            circ = build(cls, u, k, cs, **kw)
+            if kw.get("state"):
+                return {"exc": None, "err": state_error(circ, ref_u, k, cs)}
+            op = Operator(circ).data
+    except Exception as e:  # construction must never fail on a valid input
+        return {"exc": f"{type(e).__name__}: {str(e)[:200]}"}
     return {"exc": None, "err": float(np.abs(op - ideal(ref_u, k, cs)).max())}
+
+
+def state_error(circ, u, k, cs, reps=2):
+    """Cheap form of the Operator oracle for the boundary sizes k >= 8: the definition applied to dense pseudo-random
+    states (fixed by k and the pattern) versus the ideal controlled-U applied to the same states, sup-norm rescaled by
+    sqrt(dimension) so that the 1e-7 tolerance keeps its meaning."""
+    from qiskit.quantum_info import Statevector
+    if circ.num_qubits != k + 1:
+        return float("inf")
+    dim = 2 ** (k + 1)
+    pat = int(cs, 2) if cs else 2 ** k - 1
+    idx = [pat, pat + (1 << k)]
+    g = np.random.default_rng(1009 * k + pat)
+    worst = 0.0
+    for _ in range(reps):
+        psi = g.standard_normal(dim) + 1j * g.standard_normal(dim)
+        psi /= np.linalg.norm(psi)
+        ref = psi.copy()
+        ref[idx] = u @ psi[idx]
+        got = Statevector(psi).evolve(circ).data
+        worst = max(worst, float(np.abs(got - ref).max()) * math.sqrt(dim))
+    return worst
 
 
 def imag_dust(su):
@@ -757,6 +786,103 @@ def _mcu_rejects(u, k, e):
 
 
 # ------------------------------------------------------------------------------------------------
+# boundary-value pass
+# ------------------------------------------------------------------------------------------------
+#   qdmcu.py   num_ctrl == 1; recursion k -> k-1 with LinearMcx(j, action_only=True), j = k-1 .. 1, whose size branches
+#              are num_qubits = j + 2 < 5, == 5, == 6, == 7, else (k_2 = ceil(nq/2), k_1 = j - k_2 + 1: nq = 8, 9, 10, 11
+#              give (k_1, k_2) = (3,4), (3,5), (4,5), (4,6))                        k = 1..7 (run), 8, 9, 10 here
+#   ldmcu.py   len(control_qubits) > 0; pair.control == 0; target == n_qubits - 1 and first
+#                                                                                   k = 0..7 (run), 8, 9, 10 here
+#   mcg.py     num_ctrl == 0 / == 1 / else; check_su2 = isclose(det, 1) (rel 1e-9); up_to_diagonal
+#                                                                                   |det - 1| = 1e-10, 3e-10 | 3e-9, 1e-8,
+#                                                                                   1e-6, 1e-4 at k = 2, 3 (here)
+#   mcu.py     n_ctrl_base == 0, n_ctrl_base > num_controls, extra_q >= 1, pair.target == 1: (k, b) grid b = 1..k+1
+#              (mcu_cases); ceil(log2(angle / acos(1 - e^2/2))) next to each integer (relative 1e-6 on both sides), then
+#              k = b-1, b, b+1, b+2 with that tight error; `>=` of the eigen-angle choice at an exact tie (here)
+
+def boundary(ctx, nprng):
+    r = ctx.rng
+    ut = tie_u(nprng)
+    su = to_su2(haar_u2(nprng))
+    tasks = []
+
+    def mixed(k):
+        return "".join("10"[(k - 1 - j) % 2] for j in range(k))
+
+    # -- sizes beyond the generic sweep
+    for k in (8, 9, 10):
+        for cs in (None, mixed(k)):
+            ctx.count("boundary:k=8..10 (LinearMcx 9..11 wires inside Qdmcu)")
+            tie_gate(ctx, "ldmcu", ut, k, cs)
+            tie_gate(ctx, "qdmcu", ut, k, cs)
+            tie_gate(ctx, "mcg", ut, k, cs)
+            tie_gate(ctx, "mcg", su, k, cs)
+            tie_gate(ctx, "mcg", ut, k, cs, utd=True)
+            for cls, nm, u, kw in (("ldmcu", "bv-tieU", ut, {}), ("qdmcu", "bv-tieU", ut, {}), ("mcg", "bv-tieU", ut, {}),
+                                   ("mcg", "bv-su2", su, {}), ("mcg", "bv-tieU", ut, {"utd": True})):
+                tasks.append((cls, nm, u, k, cs, dict(kw, state=True)))
+    # -- determinant next to the isclose(det, 1) threshold of Mcg's dispatch
+    base = to_su2(tie_u(nprng))
+    for delta in (1e-10, 3e-10, 3e-9, 1e-8, 1e-6, 1e-4):
+        u = np.exp(0.5j * delta) * base
+        side = "su2-side" if delta < 1e-9 else "u2-side"
+        for k in (2, 3):
+            for utd in (False, True):
+                cs = None if k == 2 else "010"
+                ctx.count("boundary:mcg det threshold:" + side)
+                tie_gate(ctx, "mcg", u, k, cs, utd=utd)
+                tasks.append(("mcg", f"bv-det=exp({delta:g}i)", u, k, cs, {"utd": True} if utd else {}))
+    for t, res in zip(tasks, pool_map(eval_exact, tasks)):
+        record_exact(ctx, t, res)
+
+    # -- base-control count next to the integers of log2(quotient); the whole gate at k = b-1 .. b+2 with that error
+    mt = []
+    cmpf = lambda op, impl, model: None if impl == model else f"impl={impl} model={model}"
+    for j in (-2, -1, 0, 1, 2, 3, 4):
+        for e in (0.2, 0.05) if j >= 2 else (0.9, 0.3):
+            th = math.acos(1 - e * e / 2)
+            for rel, b in ((1 - 1e-6, j + 1), (1 + 1e-6, j + 2)):
+                ang = th * 2.0 ** j * rel
+                if ang >= 3.1:
+                    continue
+                u = np.diag([1, np.exp(1j * ang)])
+                a = np.angle(np.linalg.eig(u)[0])
+                ctx.count("boundary:numbase ceil(log2)")
+                got = num_base_real(u, e)
+                ctx.tie({"op": "numbase", "a0": float(a[0]), "a1": float(a[1]), "err": float(e)}, [got],
+                        label=f"num_base boundary j={j} rel={rel}", driver=DRIVER, compare=cmpf)
+                if got != f"b {b}":
+                    ctx.fail(f"u2:mcu:numbase-boundary:j={j}:e={e}:rel={rel}", f"_get_num_base_ctrl_qubits = {got}, expected b {b} "
+                             f"(angle = acos(1 - e^2/2) * 2^{j} * {rel})", rep("mcu", u, max(b, 1), None, error=e))
+                    continue
+                if b >= 1:
+                    for k in (b - 1, b, b + 1, b + 2):
+                        if 1 <= k <= 8:
+                            cs = None if (k + j) % 2 else mixed(k)
+                            ctx.count(f"boundary:mcu k-b={k - b}")
+                            tie_mcu(ctx, u, k, e, cs)
+                            mt.append((f"bv-tight-b{b}", u, k, e, cs))
+    for t, res in zip(mt, pool_map(eval_mcu, mt)):
+        acc = record_mcu(ctx, t, res)
+        b = int(t[0].split("b")[-1])
+        if acc != (b <= t[2]):
+            ctx.fail(f"u2:mcu:accept-boundary:{t[0]}:k={t[2]}", f"MCU accepted={acc} with n_ctrl_base = {b}, k = {t[2]}",
+                     rep("mcu", t[1], t[2], t[4], error=t[3]))
+    # -- exact tie of the eigen-angle choice `(1 - cos a0) >= (1 - cos a1)`: diagonal +-a (cos is even, eig of a diagonal
+    #    matrix returns the diagonal): the first angle wins
+    for a in (0.4, 1.3):
+        for sgn in (1, -1):
+            u = np.diag([np.exp(1j * sgn * a), np.exp(-1j * sgn * a)])
+            ang = np.angle(np.linalg.eig(u)[0])
+            if (1 - math.cos(ang[0])) != (1 - math.cos(ang[1])) or ang[0] != sgn * a:
+                continue
+            ctx.count("boundary:numbase angle tie")
+            for e in (0.3, 0.05):
+                ctx.tie({"op": "numbase", "a0": float(ang[0]), "a1": float(ang[1]), "err": e}, [num_base_real(u, e)],
+                        label=f"num_base exact angle tie a0={ang[0]}", driver=DRIVER, compare=cmpf)
+
+
+# ------------------------------------------------------------------------------------------------
 # entry points
 # ------------------------------------------------------------------------------------------------
 
@@ -765,7 +891,9 @@ def run(ctx, kmax=None, kpat=None):
     conventions(ctx)
     kmax = kmax or (7 if ctx.quick else 9)
     kpat = kpat or 4
-    ctx.notes.append("c04_u2: generated unitaries keep |det - 1| outside (1e-12, 1e-6) (isclose threshold of check_su2) "
+    ctx.notes.append("c04_u2: generated unitaries keep |det - 1| outside (1e-12, 1e-6) (isclose threshold 1e-9 of check_su2); "
+                     "the boundary pass adds |det - 1| = 1e-10, 3e-10, 3e-9, 1e-8, 1e-6, 1e-4 (excluded band (3.3e-10, 3e-9)), "
+                     "the SU(2) test of the tie / reference is computed independently of qclib; "
                      "and, outside the dedicated near-degenerate probes, eigenvalue gap 0 or > 1e-3; family members whose "
                      "SU(2) part is a real rotation with imaginary float dust (phase*RY, depending on the drawn phase) get "
                      "keys u2:imag-dust:... (threshold region of Ldmcsu's real-diagonal tests, probed on every run)")
@@ -843,6 +971,8 @@ def run(ctx, kmax=None, kpat=None):
         n_acc += bool(record_mcu(ctx, t, res))
     ctx.notes.append(f"c04_u2: MCU accepted {n_acc} of {len(mt)} parameter sets in the oracle (a Haar U(2) whose dominant "
                      f"eigen-angle is negative is rejected by the constructor: log2 of a negative quotient)")
+    if kmax <= 7:
+        boundary(ctx, nprng)
 
 
 def search(ctx, hints):
@@ -871,4 +1001,6 @@ def replay(ctx, r):
         oracle_mcu(ctx, r.get("uname", "U"), u, k, float(r["error"]), cs)
     else:
         kw = {"utd": True} if r.get("utd") else {}
+        if r.get("state") or k >= 10:
+            kw["state"] = True
         oracle_exact(ctx, cls, r.get("uname", "U"), u, k, cs, **kw)
